@@ -681,6 +681,70 @@ def _reaction_case(units, bulk_order, wall_order):
     return Case("%s,bulk_order=%d,wall_order=%d" % (units.name, bulk_order, wall_order), build, crosscheck=False)
 
 
+# ---------------------------------------------------------------------------- [CURVES]: what EPANET is told
+
+def _write_only(writer, inpw, wnw):
+    f = FileStub()
+    writer(inpw, f, wnw)
+    return f.lines
+
+
+def _curve_case(units, ctype):
+    def build(cx):
+        from contracts.c17_units import hyd_spec
+        from wntr.epanet.util import HydParam
+        cn = cx.name("curve")
+        pts = [(cx.real("x%d" % i), cx.real("y%d" % i)) for i in range(2)]
+        curve = _Bag(curve_type=ctype, points=list(pts), name=cn)
+        wnw = _Bag(curve_name_list=[cn], get_curve=lambda n: curve)
+        cx.target(_write_only, InpFile._write_curves, _inp(units, wnw), wnw)
+
+        def post(out):
+            if not out.returned:
+                return []
+            lines = [ln.tokens() for ln in out.value if isinstance(ln, SymStr)]
+            lines = [t for t in lines if not (isinstance(t[0], str) and t[0].startswith(";"))]      # the ';TYPE: name' comment line
+            posts = [("one_line_per_point", len(lines) == len(pts))]
+            if len(lines) != len(pts):
+                return posts
+            xpar, ypar = {"HEAD": (HydParam.Flow, HydParam.HydraulicHead), "VOLUME": (HydParam.Length, HydParam.Volume),
+                          "EFFICIENCY": (HydParam.Flow, None), "HEADLOSS": (HydParam.Flow, HydParam.Length), None: (None, None)}[ctype]
+            kx = hyd_spec(xpar, units, False)[0] if xpar is not None else 1.0
+            ky = hyd_spec(ypar, units, False)[0] if ypar is not None else 1.0
+            for i, (t, (x, y)) in enumerate(zip(lines, pts)):
+                posts.append(("point_%d_x_written_in_the_unit_epanet_expects_for_this_curve_type" % i, _within(Rr(t[1]) * real_val(kx), Rr(x))))
+                posts.append(("point_%d_y_written_in_the_unit_epanet_expects_for_this_curve_type" % i, _within(Rr(t[2]) * real_val(ky), Rr(y))))
+            return posts
+        cx.ensure(post)
+    return Case("%s,%s" % (units.name, ctype), build, crosscheck=False)
+
+
+# ---------------------------------------------------------------------------- [SOURCES]
+
+def _source_case(units, stype, has_pattern):
+    def build(cx):
+        nn, pn, st = cx.name("node"), cx.name("pattern"), cx.real("strength")
+        ts = types.SimpleNamespace(base_value=st, pattern_name=(pn if has_pattern else None))
+        src = types.SimpleNamespace(node_name=nn, source_type=stype, strength_timeseries=ts)
+        wnw = _Bag(_sources={"S1": _Bag(node_name=nn, source_type=stype, strength_timeseries=_Bag(base_value=st, pattern_name=(pn if has_pattern else None)))})
+        wnr = WnR()
+        cx.target(_roundtrip_call, InpFile._write_sources, InpFile._read_sources, "[SOURCES]", _inp(units, wnw), _inp(units, wnr), wnw)
+
+        def post(out):
+            if not out.returned:
+                return []
+            posts = [("one_line_written_one_source_read", out.value == 1 and len(wnr.calls) == 1 and wnr.calls[0][0] == "add_source")]
+            if len(wnr.calls) != 1:
+                return posts
+            a_ = wnr.calls[0][1]
+            posts += [("node_and_type_kept", z3.And(a_[1].t == cx.t(nn), z3.BoolVal(a_[2] == stype))),
+                      ("strength_round_trips_as_mass_injection_or_concentration_according_to_the_source_type", _eqn(a_[3], st)),
+                      ("pattern_kept", (a_[4].t == cx.t(pn)) if has_pattern else (a_[4] is None))]
+            return posts
+        cx.ensure(post)
+    return Case("%s,%s,pattern=%s" % (units.name, stype, has_pattern), build, crosscheck=False)
+
+
 # ---------------------------------------------------------------------------- simple controls: [CONTROLS] lines
 
 def _token_models():
@@ -828,6 +892,13 @@ CONTRACTS = [
     Contract("wntr.epanet.io:InpFile._write_reactions/_read_reactions", P, [_reaction_case(u, b, w) for u in _U for (b, w) in ((1, 1), (2, 0), (0, 1), (2, 1))],
              models=_token_models, interpret_always=(_roundtrip_call,),
              note="one pipe, one tank, global coefficients; the ORDER lines follow the coefficients in the written text", trusted=_pair_trust),
+    Contract("wntr.epanet.io:InpFile._write_sources/_read_sources", P, [_source_case(u, t, hp) for u in _U for (t, hp) in (("MASS", False), ("CONCEN", True), ("SETPOINT", False), ("FLOWPACED", True))],
+             models=_token_models, interpret_always=(_roundtrip_call,), trusted=_pair_trust),
+    Contract("wntr.epanet.io:InpFile._write_curves", P + ["C03"], [_curve_case(u, t) for u in _U for t in ("HEAD", "VOLUME", "EFFICIENCY", "HEADLOSS", None)],
+             interpret_always=(_write_only,),
+             note="pump head curves: flow / head; tank volume curves: depth / volume; efficiency curves: flow / percent; GPV head loss curves: flow / head loss "
+                  "in feet or metres (EPANET manual); untyped curves are written as they are",
+             trusted=_pair_trust),
     Contract("wntr.epanet.io:InpFile._write_valves/_read_valves", P, [_valve_case(u, c) for u in _U for c in (PRValve, PSValve, PBValve, FCValve, TCValve)],
              interpret_always=(_roundtrip_call,), trusted=_pair_trust),
 ]
